@@ -199,6 +199,8 @@ pub fn run_c01(out: &mut Out, rng: &mut Rng, tier: Tier) -> String {
             out.nontrivial();
         }
     }
+    // index resolution through caller-defined (inconsistent) accessors
+    crate::c04::stateful_small(out);
     // (C) other element types: 4-byte Copy, unit, zero-sized with drop glue
     for k in 0..n / 3 {
         out.case(&format!("history {k} elem=u32"));
